@@ -142,6 +142,17 @@ def make_uod(run: "Run", totalizer=True):
         cmd.context.tags["Out1"].set_value(float(number), run.now)
         cmd.set_complete()
 
+    def on1(cmd: UodCommand, **kw):
+        # argument-less commands a user can issue directly (also during a pause): On1 drives Out1, OpenV opens Out2
+        log(cmd, "exec")
+        cmd.context.tags["Out1"].set_value(9.0, run.now)
+        cmd.set_complete()
+
+    def openv(cmd: UodCommand, **kw):
+        log(cmd, "exec")
+        cmd.context.tags["Out2"].set_value("Open", run.now)
+        cmd.set_complete()
+
     def valve(cmd: UodCommand, option, **kw):
         log(cmd, "exec")
         cmd.context.tags["Out2"].set_value(option, run.now)
@@ -181,6 +192,8 @@ def make_uod(run: "Run", totalizer=True):
          .with_command(name="Inst", exec_fn=inst, init_fn=init, finalize_fn=fin, arg_parse_fn=None)
          .with_command_regex_arguments("Long", RegexNumber(units=None, non_negative=True, int_only=True), long_, init, fin)
          .with_command(name="Hang", exec_fn=hang, init_fn=init, finalize_fn=fin, arg_parse_fn=None)
+         .with_command(name="On1", exec_fn=on1, init_fn=init, finalize_fn=fin, arg_parse_fn=None)
+         .with_command(name="OpenV", exec_fn=openv, init_fn=init, finalize_fn=fin, arg_parse_fn=None)
          .with_command(name="OvA", exec_fn=ov, init_fn=init, finalize_fn=fin, arg_parse_fn=None)
          .with_command(name="OvB", exec_fn=ov, init_fn=init, finalize_fn=fin, arg_parse_fn=None)
          .with_command(name="OvC", exec_fn=ov, init_fn=init, finalize_fn=fin, arg_parse_fn=None)
